@@ -336,7 +336,12 @@ RootOf(m) == IF m.root = "world" THEN \A b \in Shown(m) : Rooted(world, b) ELSE 
 Valid(s, m) ==
     /\ m.match = "ok" /\ RootOf(m) /\ PowOf(m) /\ m.cont = "ok" /\ m.mmr = "ok"
     \* total difficulty envelope: skipped only when every header from the start block on is shown
-    /\ (m.td = "ok" \/ (SampleNums(s.req, m) = <<>> /\ ContinuousWithStart(s.req, m)) \/ ~HasProof(s))
+    \* and applied only when the previous proved header is on the same chain (no reorg section,
+    \* not the from-genesis proof after a long fork)
+    /\ \/ m.td = "ok"
+       \/ SampleNums(s.req, m) = <<>> /\ ContinuousWithStart(s.req, m)
+       \/ ~HasProof(s)
+       \/ ReorgNums(s.req, m) # <<>> \/ s.req.fork
 
 \* the last-N headers of the new prove state; [ok, v]
 NewLastHeaders(s, m) ==
@@ -358,6 +363,22 @@ NewLastHeaders(s, m) ==
 ForkNums(rg) ==
     {Num(world, rg[i]) : i \in {j \in 1..Len(rg) :
         \E k \in 1..Len(lastN) : lastN[k] = <<Num(world, rg[j]), rg[j]>>}}
+
+SetMax(S) == CHOOSE n \in S : \A k \in S : k <= n
+
+\* rg: reorg section, nl: the last-N headers of the new prove state.
+\* kind: "none" | "one" (previous tip is block#1: roll back to 1) | "to" (fork point f) | "long"
+ForkDecision(rg, nl) ==
+    IF rg # <<>>
+    THEN IF ForkNums(rg) # {} THEN [long |-> FALSE, kind |-> "to", f |-> SetMax(ForkNums(rg))]
+         ELSE [long |-> TRUE, kind |-> "long", f |-> 0]
+    ELSE IF Num(world, tip) = 1 THEN [long |-> FALSE, kind |-> "one", f |-> 0]
+    ELSE IF \E i \in 1..Len(nl) : Num(world, nl[i]) = Num(world, tip) /\ nl[i] # tip
+    THEN \* the previous tip is replaced on the new chain although no reorg section was returned
+         LET below == SelectSeq(nl, LAMBDA h : Num(world, h) < Num(world, tip)) IN
+         IF ForkNums(below) # {} THEN [long |-> FALSE, kind |-> "to", f |-> SetMax(ForkNums(below))]
+         ELSE [long |-> TRUE, kind |-> "long", f |-> 0]
+    ELSE [long |-> FALSE, kind |-> "none", f |-> 0]
 
 RecvProof(p, m, o) ==
     LET s == peer[p] IN
@@ -402,21 +423,15 @@ RecvProof(p, m, o) ==
             ELSE
             LET ps == [last |-> m.last, lastN |-> lh.v, reorg |-> SectionIds(m, ReorgNums(s.req, m))]
                 newTd == Td(world, m.last)
-                rg == ps.reorg
+                fd == ForkDecision(ps.reorg, ps.lastN)
             IN IF newTd > tipTD
-               THEN IF rg = <<>>
-                    THEN \* no reorg section: (block#1 special case rolls back to 1)
-                         /\ StoreIfHeavier(m.last, newTd, ps.lastN)
-                         /\ peer' = [peer EXCEPT ![p] = ReceiveProof(s, ps).s]
-                         /\ out' = NoOut
-                    ELSE IF ForkNums(rg) # {}
-                    THEN LET f == CHOOSE n \in ForkNums(rg) : \A k \in ForkNums(rg) : k <= n IN
+               THEN IF ~fd.long
+                    THEN \* no fork, or a fork point among the remembered headers (FilterSync rolls back)
                          /\ StoreIfHeavier(m.last, newTd, ps.lastN)
                          /\ peer' = [peer EXCEPT ![p] = ReceiveProof(s, ps).s]
                          /\ out' = NoOut
                     ELSE \* ProofLongFork: nothing persisted, proof from genesis requested
-                         LET r == o.req[p] IN
-                        
+                         LET r == PickGenesisReq(o, p, m.last) IN
                          /\ UNCHANGED <<tip, tipTD, lastN>>
                          /\ IF Num(world, m.last) > 0
                             THEN /\ GenesisReqOk(m.last, r)
@@ -424,8 +439,7 @@ RecvProof(p, m, o) ==
                                  /\ peer' = [peer EXCEPT ![p] = RequestProof(s, r, now).s]
                                  /\ out' = Sent({GetProofMsg(p, r)})
                             ELSE /\ UNCHANGED peer /\ out' = NoOut
-               ELSE
-                    /\ UNCHANGED <<tip, tipTD, lastN>>
+               ELSE /\ UNCHANGED <<tip, tipTD, lastN>>
                     /\ peer' = [peer EXCEPT ![p] = ReceiveProof(s, ps).s]
                     /\ out' = NoOut
 
